@@ -203,6 +203,6 @@ theorem ofPrim_cases (v : PyVal) (p : Part) (hp : Part.ofPrim v = .ok p) :
   | float k => rw [ofPrim_float] at hp; cases hp; exact ⟨rfl, Or.inl rfl⟩
   | int n => rw [ofPrim_int] at hp; cases hp; exact ⟨rfl, Or.inr rfl⟩
   | bool b => rw [ofPrim_bool] at hp; cases hp; exact ⟨rfl, Or.inr rfl⟩
-  | _ => simp [Part.ofPrim] at hp
+  | _ => simp [Part.ofPrim, primCoercions, primCoercionElse, PyVal.instOf, PyVal.typeOf] at hp
 
 end ValidaProofs.C03
